@@ -33,7 +33,7 @@ REAL = ['py4hw.simulation.Simulator._clk_cycle (enable test, per-driver clockAll
         'py4hw.logic.clock.GatedClock', 'sequential library blocks']
 STUB = ['stimulus']
 ASSUMPTIONS = ['reference models of dsim/catalog.py']
-PROBES = ['domain_far_below_its_driver', 'shared_driver_object', 'simulator_refetched_by_listener', 'edge_aborted_before_anything_was_clocked', 'refetched_through_constructor', 'caller_supplied_top_driver', 'regated_after_run', 'driver_on_block', 'top_driver_gated', 'enable_attached_late', 'disabled_edge', 'enabled_edge', 'self_gated', 'cross_domain_enable', 'wide_enable', 'nested_driver', 'gatedclock_idiom', 'single_cycle_stall', 'long_stall']
+PROBES = ['enable_is_also_the_clock_wire', 'domain_far_below_its_driver', 'shared_driver_object', 'simulator_refetched_by_listener', 'edge_aborted_before_anything_was_clocked', 'refetched_through_constructor', 'caller_supplied_top_driver', 'regated_after_run', 'driver_on_block', 'top_driver_gated', 'enable_attached_late', 'disabled_edge', 'enabled_edge', 'self_gated', 'cross_domain_enable', 'wide_enable', 'nested_driver', 'gatedclock_idiom', 'single_cycle_stall', 'long_stall']
 
 
 def gen(rs, tier, index):
@@ -89,6 +89,8 @@ def gen(rs, tier, index):
     for g in gd:
         if gd[g]['en'] and gd[g]['idiom'] == 'enable' and rng.random() < 0.25:
             gd[g]['idiom'] = 'late_enable'
+        elif gd[g]['en'] and gd[g]['idiom'] == 'enable' and gd[g].get('share') is None and rng.random() < 0.2:
+            gd[g]['idiom'] = 'clock_wire'
     if rng.random() < 0.15:
         nm = 'i%d' % len(d['inputs'])
         d['inputs'].append({'name': nm, 'w': 1, 'role': 'enable'})
@@ -182,6 +184,8 @@ def run(scn, log, st):
             st.probe('cross_domain_enable')
         if dv['idiom'] == 'gatedclock':
             st.probe('gatedclock_idiom')
+        if dv['idiom'] == 'clock_wire':
+            st.probe('enable_is_also_the_clock_wire')
         if any(h != g and g.startswith(h + '/') for h in gd):
             st.probe('nested_driver')
         if dv.get('share') is not None and g != dv['share']:
